@@ -188,6 +188,45 @@ def ev(model):
         return f"raises {type(ex).__name__}: {str(ex)[:100]}"
 
 
+def single_precision_findings(rng, tier):
+    """The same question in SINGLE precision (the default dtype of PyTorch when none is set): trees of 40..90 taxa take
+    the site likelihoods through the float32 subnormal band [1.4e-45, 1.2e-38) and beyond.  Reference: the same model
+    in double precision; agreement to 2e-6 relative (single precision itself allows no more; the unchanged code is
+    within 2e-7)."""
+    torch = impl.load()
+    found, nrun = {}, 0
+    for shape in ("caterpillar", "random"):
+        for n in range(40, 92, 3 if tier == "quick" else 1):
+            tree = make_tree(shape, n, rng)
+            x = rng.choice([0.3, 0.6, 1.0])
+            subst = dict(type="JC69")
+            try:
+                # (mixed=True adds a pseudo-random column: its likelihood is about 4^-n, in the float32 subnormal band for
+                #  n = 63..74)
+                ref = float(build(shape, n, tree, subst, x, mixed=True)[0]().detach())
+                torch.set_default_dtype(torch.float32)
+                try:
+                    lk, dc = build(shape, n, tree, subst, x, mixed=True)
+                    v1 = float(lk().detach())
+                    flag1 = bool(lk.rescale)
+                    v2 = float(lk().detach())
+                finally:
+                    torch.set_default_dtype(torch.float64)
+            except Exception as e:       # noqa
+                k = f"C03:single-precision:raises:{type(e).__name__}"
+                found.setdefault(k, (k, f"{shape} n={n}: {type(e).__name__}: {str(e)[:140]}", dict(shape=shape, n=n, x=x)))
+                continue
+            nrun += 1
+            for tag, v in (("first", v1), ("second", v2)):
+                if not math.isfinite(v) or abs(v - ref) > 2e-6 * abs(ref):
+                    k = f"C03:single-precision:{tag}-evaluation"
+                    found.setdefault(k, (k, f"{shape} tree, {n} taxa, branch scale {x}, float32 model: {tag} evaluation "
+                                            f"returns {v!r} (rescale flag after the first: {flag1}), the same model in "
+                                            f"double precision {ref!r}: relative error {abs(v - ref) / abs(ref):.1e}",
+                                         dict(shape=shape, n=n, x=x, float32=[v1, v2], float64=ref)))
+    return list(found.values()), nrun
+
+
 def run(tier, seed, replay=None):
     torch = impl.load()
     rep = C.Report(PID, tier, seed)
@@ -339,6 +378,9 @@ def run(tier, seed, replay=None):
                 found.setdefault(k, (k, f"rescale flag went from True to False at x={e['x']!r}", dict(x=e["x"])))
         return list(found.values())
 
+    sp_fs, n_sp = single_precision_findings(rng, tier)
+    for f in sp_fs:
+        rep.violation(*f)
     ok_sync, info = sync()
     if not ok_sync:
         rep.proof = dict(obligations=1, discharged=0, axioms={}, theorems=["T8 translation"], ok=False)
@@ -394,5 +436,6 @@ def run(tier, seed, replay=None):
                 "the same batch again after an assignment; plus an alignment mixing a conserved, a nearly conserved and "
                 "a pseudo-random column (fresh and in a history); "
                 "non-trivial = in/beyond the band or evaluated after the switch")
-    rep.extra = dict(input_distribution=dist, traces_validated_against_impl=len(evals), taxa=n)
+    rep.extra = dict(input_distribution=dist, traces_validated_against_impl=len(evals), taxa=n,
+                     single_precision_models_compared_with_double=n_sp)
     return rep.finish()
